@@ -127,7 +127,10 @@ func Base(d *Dialect) *schema.Schema {
 		e := col("e", en, true)
 		g := col("g", d.Int(), true)
 		g.SetGeneratedExpr(&schema.GeneratedExpr{Expr: "a + 1", Type: "STORED"})
-		t.AddColumns(e, g)
+		// a column of an extension / user-defined type, and an array of the enum.
+		ud := col("ud", &postgres.UserDefinedType{T: "ltree"}, true)
+		ea := col("ea", &postgres.ArrayType{Type: en, T: "status[]"}, true)
+		t.AddColumns(e, g, ud, ea)
 		t.AddIndexes(
 			schema.NewIndex("idx_d_inc").AddParts(part(1, dd)).AddAttrs(&postgres.IndexInclude{Columns: []*schema.Column{c}}),
 			schema.NewIndex("idx_d_part").AddParts(part(1, dd)).AddAttrs(&postgres.IndexPredicate{P: "d > 0"}),
@@ -487,6 +490,20 @@ func Edits(d *Dialect) []Edit {
 		)
 	case Postgres:
 		es = append(es,
+			Edit{"user_defined_type_changed", []string{"col:ud"}, func(s *schema.Schema) {
+				C(T(s, "t"), "ud").Type.Type = &postgres.UserDefinedType{T: "citext"}
+			}, []string{mt("ModifyColumn(ud)[type]")}},
+			Edit{"enum_array_to_text_array", []string{"col:ea"}, func(s *schema.Schema) {
+				C(T(s, "t"), "ea").Type.Type = &postgres.ArrayType{Type: &schema.StringType{T: "text"}, T: "text[]"}
+			}, []string{mt("ModifyColumn(ea)[type]")}},
+			// two kinds of change on one column at once: the flags must accumulate.
+			Edit{"identity_and_type_and_comment", []string{"col:id"}, func(s *schema.Schema) {
+				c := C(T(s, "t"), "id")
+				c.Attrs = dropAttr[*postgres.Identity](c.Attrs)
+				c.AddAttrs(&postgres.Identity{Generation: "BY DEFAULT", Sequence: &postgres.Sequence{Start: 1, Increment: 1}})
+				c.Type.Type = d.BigInt()
+				c.SetComment("id column")
+			}, []string{mt("ModifyColumn(id)[attr,comment,type]")}},
 			Edit{"identity_changed", []string{"col:id"}, func(s *schema.Schema) {
 				c := C(T(s, "t"), "id")
 				c.Attrs = dropAttr[*postgres.Identity](c.Attrs)
